@@ -64,6 +64,8 @@ type nondetRec struct {
 
 var buildMu sync.Mutex
 
+var debugStack = os.Getenv("GOSYM_STACK") != ""
+
 var traceCalls = func() int {
 	n, _ := strconv.Atoi(os.Getenv("GOSYM_TRACECALLS"))
 	return n
@@ -966,9 +968,17 @@ func (it *Interp) call(fn *ssa.Function, args []Value, binds []Value) (ret Value
 	defer func() {
 		it.top = saveTop
 		if r := recover(); r != nil {
+			if debugStack {
+				if pe, ok := r.(*pathEnd); ok && pe.kind == "unsupported" && strings.Count(pe.msg, " <- ") < 10 {
+					pe.msg += " <- " + name
+				}
+			}
 			gp, ok := r.(*goPanic)
 			if !ok {
 				panic(r)
+			}
+			if debugStack && strings.Count(gp.msg, " <- ") < 10 {
+				gp.msg += " <- " + name
 			}
 			fr.panicking = gp
 			it.top = fr
